@@ -303,6 +303,9 @@ def optimize_kl(likelihood_energy,
     _output_directory = output_directory
     _save_strategy = save_strategy
 
+    # Index at which a run without resume starts; the histories of the
+    # previous iteration need not exist there
+    first_new_index = None
     if output_directory is not None:
         # Create all necessary subfolders
         if _MPI_master(comm(initial_index)):
@@ -339,6 +342,7 @@ def optimize_kl(likelihood_energy,
             energy_history = _pickle_load_values(last_finished_index, 'energy_history')
         # No resume
         else:
+            first_new_index = initial_index
             check_MPI_synced_random_state(comm(initial_index))
             if _MPI_master(comm(initial_index)):
                 _save_random_state()
@@ -434,7 +438,8 @@ def optimize_kl(likelihood_energy,
                     _plot_energy_history(iglobal, energy_history)
         _barrier(comm(iglobal))
 
-        _minisanity(lh, iglobal, sl, comm, plot_minisanity_history)
+        _minisanity(lh, iglobal, sl, comm, plot_minisanity_history,
+                    iglobal == first_new_index)
         _barrier(comm(iglobal))
 
         _counting_report(count, iglobal, comm)
@@ -500,6 +505,11 @@ def _pickle_save_values(index, name, val):
     file_name = join(_output_directory, f"pickle/{name}_")
     file_name += _file_name_by_strategy(index)
     _atomic_write(file_name, pickle.dumps(val), "wb")
+
+
+def _pickle_values_exist(index, name):
+    file_name = join(_output_directory, f"pickle/{name}_")
+    return isfile(file_name + _file_name_by_strategy(index))
 
 
 def _pickle_load_values(index, name):
@@ -581,7 +591,8 @@ def _append_key(s, key):
     return f"{s} ({key})"
 
 
-def _minisanity(likelihood_energy, iglobal, sl, comm, plot_minisanity_history):
+def _minisanity(likelihood_energy, iglobal, sl, comm, plot_minisanity_history,
+                may_start_history=False):
     from ..extra import minisanity
 
     s, ms_val = minisanity(likelihood_energy, sl, terminal_colors=False,
@@ -595,7 +606,10 @@ def _minisanity(likelihood_energy, iglobal, sl, comm, plot_minisanity_history):
         value_type_keys = ['redchisq', 'scmean']
         category_keys = ['data_residuals', 'latent_variables']
 
-        if iglobal == 0:
+        # A run that starts at `initial_index > 0` in a fresh output directory
+        # has no history of the previous iteration to continue
+        if iglobal == 0 or (may_start_history and not
+                            _pickle_values_exist(iglobal - 1, 'minisanity_history')):
             mh = {tk: {ck: {} for ck in category_keys} for tk in value_type_keys}
         else:
             mh = _pickle_load_values(iglobal - 1, 'minisanity_history')
